@@ -1,6 +1,7 @@
 package main
 
 import (
+	"os"
 	"fmt"
 	"sort"
 
@@ -266,6 +267,18 @@ func checkLiveness(nw *Network, res *CaseResult, cycles int, idle bool, bound in
 				busy = append(busy, n.Idx)
 			}
 		}
+		probe := map[string]string{}
+		if os.Getenv("VERIF_PROBE_SELF_EVENT") != "" {
+			for _, n := range live {
+				if n.Core.Busy() {
+					before := len(n.Core.Hg().UndeterminedEvents)
+					err := n.Core.AddSelfEvent("")
+					_, seq := n.Core.Head()
+					probe[fmt.Sprint(n.Idx)] = fmt.Sprintf("AddSelfEvent: err=%v undetermined %d->%d seq=%d lastRound=%d", err, before, len(n.Core.Hg().UndeterminedEvents), seq, n.Core.Hg().Store.LastRound())
+				}
+			}
+			fmt.Fprintf(os.Stderr, "PROBE %v\n", probe)
+		}
 		sig := "C06:not-idle-within-bound"
 		msg := fmt.Sprintf("after %d fair all-pairs cycles among the live validators, nodes %v are still busy (or a join / fast-forward is still pending)", bound, busy)
 		if desc := onlyChildlessEventsOfDeparted(nw, live, pendingJoins); desc != "" {
@@ -344,7 +357,13 @@ func checkLiveness(nw *Network, res *CaseResult, cycles int, idle bool, bound in
 	}
 	// every membership request submitted through the harness to a live node got an answer
 	for _, r := range nw.Itxs {
-		if nw.Nodes[r.Host].babbling() && !r.Answered {
+		if h := nw.Nodes[r.Host]; h.babbling() && !r.Answered {
+			if h.Incarnation != r.HostInc || nw.lostPool[r.Host] {
+				// the host lost its data and was restarted after accepting the request: its
+				// pending pool is legitimately gone (the property speaks of nodes that keep running)
+				res.count("liveness_membership_requests_lost_with_a_restarted_host", 1)
+				continue
+			}
 			nw.violate("C06", "C06:membership-request-unanswered",
 				fmt.Sprintf("leave request of node %d accepted at step %d was never committed", r.Subject, r.Step), nil)
 			return
